@@ -4,6 +4,7 @@ import (
 	"io"
 	"path"
 	"path/filepath"
+	"sort"
 	"strings"
 
 	"github.com/git-lfs/git-lfs/v3/config"
@@ -178,7 +179,30 @@ func lsFilesBlobs(predicate func(*git.TreeBlob) bool) (*TreeBlobChannelWrapper, 
 	}, predicate)
 }
 
-func catFileBatchTreeForPointers(treeblobs *TreeBlobChannelWrapper, gitEnv, osEnv config.Environment) (map[string]*WrappedPointer, *filepathfilter.Filter, error) {
+// attrRule is one attribute line that says something about the filter of the
+// paths its pattern matches.
+type attrRule struct {
+	pattern filepathfilter.Pattern
+	tracked bool
+	depth   int
+}
+
+// attrRules decides as Git does whether a path is handled by Git LFS: of the
+// lines that match it, the last one decides, and the lines of an attributes
+// file deeper in the tree come after those of the files above it.
+type attrRules []attrRule
+
+func (rs attrRules) Allows(name string) bool {
+	tracked := false
+	for _, r := range rs {
+		if r.pattern.Match(name) {
+			tracked = r.tracked
+		}
+	}
+	return tracked
+}
+
+func catFileBatchTreeForPointers(treeblobs *TreeBlobChannelWrapper, gitEnv, osEnv config.Environment) (map[string]*WrappedPointer, attrRules, error) {
 	pscanner, err := NewPointerScanner(gitEnv, osEnv)
 	if err != nil {
 		return nil, nil, err
@@ -252,9 +276,13 @@ func catFileBatchTreeForPointers(treeblobs *TreeBlobChannelWrapper, gitEnv, osEn
 		return nil, nil, err
 	}
 
-	includes := make([]filepathfilter.Pattern, 0, len(paths))
-	excludes := make([]filepathfilter.Pattern, 0, len(paths))
+	rules := make(attrRules, 0, len(paths))
 	for _, path := range paths {
+		if !path.HasFilter {
+			// an entry such as `*.dat lockable` says nothing about
+			// whether a path is in LFS
+			continue
+		}
 		// Convert all separators to `/` before creating a pattern to
 		// avoid characters being escaped in situations like `subtree\*.md`
 		text := filepath.ToSlash(path.Path)
@@ -263,17 +291,15 @@ func catFileBatchTreeForPointers(treeblobs *TreeBlobChannelWrapper, gitEnv, osEn
 			// and to sub/deep/b.dat alike
 			text = text[:i+1] + "**/" + text[i+1:]
 		}
-		pattern := filepathfilter.NewPattern(text, filepathfilter.GitAttributes)
-		if path.Tracked {
-			includes = append(includes, pattern)
-		} else if path.HasFilter {
-			// only an entry that sets another filter (or none) takes
-			// a path out of LFS; `*.dat lockable` does not
-			excludes = append(excludes, pattern)
-		}
+		rules = append(rules, attrRule{
+			pattern: filepathfilter.NewPattern(text, filepathfilter.GitAttributes),
+			tracked: path.Tracked,
+			depth:   strings.Count(filepath.ToSlash(path.Source.Path), "/"),
+		})
 	}
+	sort.SliceStable(rules, func(i, j int) bool { return rules[i].depth < rules[j].depth })
 
-	return pointers, filepathfilter.NewFromPatterns(includes, excludes, filepathfilter.DefaultValue(false)), nil
+	return pointers, rules, nil
 }
 
 func runScanTreeForPointers(cb GitScannerFoundPointer, tree string, gitEnv, osEnv config.Environment) error {
